@@ -1209,7 +1209,8 @@ class ComplexGammatoneFilterBank(LinearFilterBank):
                 d_0 = _d(right)
                 right -= h_0 / d_0
                 h_0 = np.abs(self._h(right, idx))
-        return (int(np.floor(offset)), int(np.ceil(right) + offset))
+        # _h already accounts for the offset, so right is in shifted time
+        return (int(np.floor(offset)), int(np.ceil(right)))
 
 
 # windows
